@@ -1,6 +1,7 @@
 package props
 
 import (
+	"encoding/json"
 	"fmt"
 	"math/rand"
 	"os"
@@ -54,6 +55,23 @@ var c12FixedExprs = []string{
 	`any objs as o { o.name matches "^web" and (any o.tags as t { t == "b" }) }`, `all objs as o { o.port != 0 and (all o.tags as t { t not matches "^z" }) }`, `any objs as i, o { any o.tags as j, t { t == "c" and j == 0 and i == 1 } }`,
 	`any ls as x { x matches "^be" }`, `all ls as x { x not matches "^z" and x matches "a$" }`, `any objs as o { o.zz == 1 }`, `zz == 1`, `m.zz == 1`, `m.zz != 1`, `any m.zz as x { x == 1 }`, `not (s == "alpha") or (n == 5 and f != 2)`,
 	`st.name == go`, `st.L.1 == 5`, `any st.L as v { v == 4 }`, `st.Hidden == h`, `(any objs as o { o.name == "db-2" }) and (any l as v { v == 1 })`, `all l as v { any l as w { w == v } }`,
+	// many regular expressions in ONE expression (more than any batch size of a creation-time pass)
+	func() string {
+		var sb strings.Builder
+		for i := 0; i < 150; i++ {
+			fmt.Fprintf(&sb, `s matches "^never%d$" or `, i)
+		}
+		sb.WriteString(`s matches "^alpha$"`)
+		return sb.String()
+	}(),
+	func() string {
+		var sb strings.Builder
+		for i := 0; i < 70; i++ {
+			fmt.Fprintf(&sb, `s not matches "^n%d" and `, i)
+		}
+		sb.WriteString(`(any ls as x { x matches "^be" })`)
+		return sb.String()
+	}(),
 	// value aliases four to six quantifiers deep: the rewritten paths have 9..13 parts; absent last keys
 	`any deep as x { any x.b as y { any y.c as z { any z.d as w { w.missing is empty } } } }`, `all deep as x { all x.b as y { all y.c as z { all z.d as w { w.missing != 1 and w.k == 1 } } } }`,
 	`any deep as x { any x.b as y { any y.c as z { any z.d as w { any w.e as u { u.nope is empty and (any u.f as t { t == 3 }) } } } } }`, `any deep as x { any x.b as y { any y.c as z { any z.d as w { w.missing == 1 } } } }`,
@@ -491,7 +509,7 @@ func c12ManyPatterns(c *mon.Ctx) {
 // into the call; the slice must still hold what the caller put there.
 func c12SharedOptionSlice(c *mon.Ctx) {
 	const G = 12
-	tag, unk, hk := bexpr.WithTagName("alt"), bexpr.WithUnknownValue("u"), bexpr.WithHookFn(hookIdentity{}.Real())
+	tag, unk, hk := bexpr.WithTagName("alt"), bexpr.WithUnknownValue(json.Number("7")), bexpr.WithHookFn(hookIdentity{}.Real())
 	shared := []bexpr.Option{nil, tag, nil, nil, unk, hk, nil}
 	want := []bool{true, false, true, true, false, false, true}
 	data := make([]interface{}, G)
@@ -509,13 +527,13 @@ func c12SharedOptionSlice(c *mon.Ctx) {
 			defer done.Done()
 			ready.Done()
 			<-gate
-			ev, err, pan, _ := createEval(`st.altname == go and zz == u`, shared...)
+			ev, err, pan, _ := createEval(`st.altname == go and zz == 7 and zz != 8`, shared...)
 			if pan != "" || err != nil {
 				fails[gi] = "create: " + fmt.Sprint(err) + pan
 				return
 			}
 			if o := evaluate(ev, data[gi]); o.Class() != "T" {
-				fails[gi] = "st.altname == go and zz == u with [nil, tag alt, nil, nil, unknown u, identity hook, nil]: " + o.String() + " (want T)"
+				fails[gi] = "st.altname == go and zz == 7 and zz != 8 with [nil, tag alt, nil, nil, unknown json.Number(7), identity hook, nil]: " + o.String() + " (want T)"
 			}
 		}()
 	}
